@@ -177,6 +177,7 @@ impl TryFrom<Bound<'_, PyAny>> for Value {
                 let n = serde_yaml::Number::from(v);
                 Ok(Self::Number(n))
             }
+            "NoneType" => Ok(Self::Null),
 
             _ => Err(PyValueError::new_err(format!(
                 "Conversion from Python type to reclass_rs::Value isn't implemented for <class '{}'>",
